@@ -197,3 +197,15 @@ Definition url_not_option (r : req) : bool :=
 Definition req_no_nul (known : list str) (r : req) : bool :=
   no_nul (url r) && forallb (fun kv => no_nul (fst kv) && no_nul (snd kv)) (filter_headers known (headers r))
   && match body r with Some b => no_nul b | None => true end.
+
+(* ---------- the command as printed in a failure report (core/failures.py: format_failures) ----------
+   "Reproduce with: \n\n    {curl}": four spaces in front of the FIRST line only. *)
+Definition report_block (known : list str) (r : req) : str := [SP; SP; SP; SP] ++ generate known r.
+
+(* the variant that indents every line of the command (textwrap.indent), kept as a regression sentinel *)
+Fixpoint indent_lines (s : str) : str :=
+  match s with
+  | [] => []
+  | c :: s' => if N.eqb c 10 then c :: SP :: SP :: SP :: SP :: indent_lines s' else c :: indent_lines s'
+  end.
+Definition report_block_indent_all (known : list str) (r : req) : str := [SP; SP; SP; SP] ++ indent_lines (generate known r).
